@@ -647,3 +647,154 @@ def _quick_probe(n=40, seed=1):
     for v in out.violations[:6]:
         print("VIOL", v["what"][:400])
     return out
+
+
+# ------------------------------------------------------------------ (3) robustness + scanner correspondence
+STRUCT = [b"{", b"}", b"[", b"]", b":", b",", b'"', b"#", b"@", b"\n", b"\t", b"\x00", b"\xff", b"\xc3\x28", b"\xe2\x80",
+          b" ", b"'", b"\\", b"(", b")", b"=", b"-", b"\r\n", b"&a", b"*a", b"!!", b"|", b">", b"%", b"# @grog\n", b"::", b"\xc2\xa0"]
+
+
+def mutate(rng, data):
+    data = bytearray(data)
+    for _ in range(1 + rng.below(3)):
+        k = rng.below(7)
+        n = len(data)
+        pos = rng.below(n + 1)
+        if k == 0 and n:
+            data[rng.below(n)] ^= 1 << rng.below(8)
+        elif k == 1 and n:
+            del data[pos:]
+        elif k == 2:
+            data[pos:pos] = rng.choice(STRUCT)
+        elif k == 3 and n:
+            del data[pos:pos + 1 + rng.below(8)]
+        elif k == 4 and n:
+            data[pos:pos] = data[pos:pos + 1 + rng.below(12)]
+        elif k == 5 and n:
+            data[rng.below(n)] = rng.below(256)
+        else:
+            a = rng.below(n + 1)
+            data[pos:pos] = data[a:a + rng.below(40)]
+    return bytes(data)
+
+
+LONG = 65536
+SCAN_NASTIES = [
+    b"", b"# @grog", b"# @grog\n", b"# @grog\nfoo:", b"# @grog\nfoo:\n\techo hi\n", b"# @grog\n\n\nfoo:\n", b"  # @grog  \nfoo:",
+    b"# @grog\r\nfoo:\r\n", b"# @grog\r\n# name: x\r\nfoo:\r\n\techo\r\n", b"# @grog\n# name: x", b"# @grog\n# name: x\n",
+    b"# @grog\n# name: x\nfoo", b"# @grog\n# name: x\nfoo\n", b"# @grog\n# name: x\n# @grog\nfoo:", b"# @grog\n#\nfoo:", b"# @grog\n#\n#\nfoo:",
+    b"# @grog\n# name: [\nfoo:", b"# @grogfoo\n# name: y\nbar:", b"#@grog\nfoo:", b"# @grog\n# name: a\nx: y: z", b"# @grog\n# name: a\n:",
+    b"# @grog\n# name: a\n\t:\n", b"# @grog\n# name: a\nfoo\n# @grog\nbar:", b"# @grog\n# name: a\nfoo:\n# @grog\nbar:",
+    b"# @grog\n# name: a: b\nfoo:\n# @grog\nbar:", b"# @grog\n# name: a\nfoo:\n\n# @grog\n\n\nbar: x\n", b"x:\n# @grog\n# tags: [a]\n",
+    b"# @grog\n# name: " + b"a" * 70000 + b"\nfoo:", b"x" * (LONG - 1) + b"\n# @grog\nfoo:", b"x" * LONG + b"\n# @grog\nfoo:",
+    b"# @grog\n# name: a\n" + b"f" * LONG + b":", b"# @grog\n# name: a\n" + b"f" * (LONG - 2) + b":", b"# @grog\n# name: a\nfoo:\n" + b"y" * LONG,
+    b"x" * (LONG - 1) + b"\r\n# @grog\n# name: q\nfoo:", b"\xc2\xa0# @grog\nfoo:", b"\xe2\x80\x83# @grog\n\xe3\x80\x80\nfoo:", b"# @grog\n\x85\nfoo:",
+    b"\xc2\x85# @grog\n# name: a\nfoo:", b"# @grog\n# name: a\n\xe2\x80\xa8\nfoo:", b"# @grog\n\xe2\x80\nfoo:", b"# @grog\n# name: a\n\xa0foo:",
+    b"# @grog\n# tags: &a [x, *a]\nfoo:", b"# @grog\n# name: \"\\x00\"\nfoo:", b"# @grog\n# name: a\x00b\nfoo:", b"# @grog\n# inputs: 3\nfoo:",
+    b"# @grog\n# fingerprint: [a]\nfoo:", b"# @grog\n# name: ~\nfoo:", b"# @grog\n# unknown: 1\nfoo:", b"# @grog\n# name: a\n# name: b\nfoo:",
+    b"# @grog\n# - a\n# - b\nfoo:", b"# @grog\n# platforms: []\n# timeout: zzz\nfoo:", b"# @grog\n#\tname: a\nfoo:", b"# @grog\n##name: a\nfoo:",
+    b"# @grog\n# name: a\n# outputs:\n#   - o\n#   - dir::d\nfoo bar: baz\n", b"# @grog\n# name: a\nfoo := 1\n", b"# @grog\n# name: a\n\xef\xbb\xbffoo:",
+    b"\xef\xbb\xbf# @grog\n# name: a\nfoo:", b"# @grog\n# &x name: a\nfoo:", b"# @grog\n# a: &a [1]\n# b: [*a, *a]\nfoo:",
+]
+STAR_LOOP = b"def f():\n    for i in range(1 << 40):\n        pass\nf()\ntarget(name = \"a\", command = \"true\")\n"
+
+
+def sx_annot(j):
+    pl = "N" if not j["has_platforms"] else sx_list(j["platforms"])
+    return sx_list([j["name"], sx_list(j["deps"]), sx_list(j["inputs"]), sx_list(j["tags"]),
+                    sx_list(["( %s %s )" % (k, v) for k, v in j["fingerprint"]]), sx_list(["( %s %s )" % (k, v) for k, v in j["env"]]),
+                    j["timeout"], pl, sx_list(j["outputs"])])
+
+
+def scan_obs(status, pay):
+    if status == "ok":
+        return ("ok", pay[0], json.dumps(json.loads(pay[1]), sort_keys=True))
+    return (status, pay if isinstance(pay, str) else "")
+
+
+def eval_scanners(out, h, drv, cases, findings, stats):
+    """cases: [(kind 'mk'|'sh', content bytes)] -- real scanner vs Loader.scan_*_file with the real
+    YAML decoder as oracle; panic classes decided by Loader.mk_guard."""
+    fname = "x.grog.sh"
+    impl = run_harness(h, ["scanmk\t%s" % hx(c) if k == "mk" else "scansh\t%s\t%s" % (hx(fname), hx(c)) for k, c in cases])
+    rc, bl, me = vlib.run_lines(drv, [("blocksmk\t%s" if k == "mk" else "blockssh\t%s") % hx(c) for k, c in cases])
+    if rc != 0 or len(bl) != len(cases):
+        raise RuntimeError("model driver failed on blocks: " + me[-300:])
+    queries = sorted({(k, blk) for (k, _), l in zip(cases, bl) for blk in l.split("\t")[1:]})
+    ya = run_harness(h, ["yamlann\t%s\t%s" % (k, blk) for k, blk in queries])
+    table = {}
+    for (k, blk), a in zip(queries, ya):
+        f = a.split("\t")
+        table[(k, blk)] = sx_annot(json.loads(f[1])) if f[0] == "ok" else "E"
+    mlines = []
+    for (k, c), l in zip(cases, bl):
+        t = sx_list(["( %s %s )" % (blk, table[(k, blk)]) for blk in sorted(set(l.split("\t")[1:]))])
+        mlines.append("scanmk\t%s\t%s" % (hx(c), t) if k == "mk" else "scansh\t%s\t%s\t%s" % (hx(fname), hx(c), t))
+    rc, mo, me = vlib.run_lines(drv, mlines)
+    if rc != 0 or len(mo) != len(cases):
+        raise RuntimeError("model driver failed on scan: " + me[-300:])
+    for (k, c), a, m in zip(cases, impl, mo):
+        stats["scanner_cases"] += 1
+        mf = m.split("\t")
+        guard = None
+        if mf and mf[-1].startswith("guard="):
+            guard = mf[-1] == "guard=1"
+            m = "\t".join(mf[:-1])
+        ist, ipay, imsg = obs_impl(a)
+        mst, mpay, _ = obs_model(m)
+        io, mo_ = scan_obs(ist, ipay), scan_obs(mst, mpay)
+        stats["scanner_outcomes"][k + ":" + io[0] + (":" + io[1] if io[0] == "error" else "")] = \
+            stats["scanner_outcomes"].get(k + ":" + io[0] + (":" + io[1] if io[0] == "error" else ""), 0) + 1
+        rep = {"kind": "scanner", "scanner": k, "content_hex": c.hex(), "impl": a[:2000], "model": m[:2000]}
+        if ist in ("panic", "hang"):
+            if ist == "panic" and k == "mk" and guard is False and "makefile-bare-annotation-panic" in findings:
+                out.known(findings["makefile-bare-annotation-panic"]["id"],
+                          "Makefile %r: '# @grog' with no annotation line before the goal -> %s (makefile_loader.go:110)" % (
+                              c[:40].decode("latin-1"), imsg[:60]))
+                stats["scanner_known_panics"] += 1
+            else:
+                out.violation("%s annotation scanner: %s on %r" % ("Makefile" if k == "mk" else "script", ist, c[:80]), rep)
+                continue
+        if io != mo_:
+            out.violation("correspondence Loader.scan_%s ~ real scanner broke on %r: impl %s, model %s" % (
+                "makefile" if k == "mk" else "script", c[:60], io[:2], mo_[:2]),
+                dict(rep, correspondence="Loader.scan_makefile_file/scan_script_file vs makefileParser.parse/scriptParser.parse"), no_input=True)
+        else:
+            stats["traces"] += 1
+            stats["nontrivial"].add(("scan", k, c))
+
+
+def eval_robustness(out, h, drv, base, cases, findings, stats):
+    """cases: [(file name, content bytes, origin)] -> loadfile; outcome must be ok/error/nomatch"""
+    lines = []
+    for i, (fn, content, origin) in enumerate(cases):
+        root = os.path.join(base, "r%d" % i)
+        write_file(os.path.join(root, "pkg", fn), content)
+        lines.append("loadfile\t%s\t%s\t%s" % (hx(root), hx(os.path.join(root, "pkg", fn)), hx(fn)))
+    ans = run_harness(h, lines)
+    bad = []
+    for (fn, content, origin), a in zip(cases, ans):
+        st, pay, msg = obs_impl(a)
+        stats["robust_cases"] += 1
+        key = fn + ":" + st
+        stats["robust_outcomes"][key] = stats["robust_outcomes"].get(key, 0) + 1
+        if st in ("ok", "error"):
+            stats["nontrivial"].add(("rb", fn, content))
+        if st not in ("ok", "error", "nomatch"):
+            bad.append((fn, content, origin, st, msg))
+    guards = model_guards(drv, [c for fn, c, o, st, msg in bad if fn == "Makefile"]) if drv else []
+    gi = iter(guards)
+    for fn, content, origin, st, msg in bad:
+        rep = {"kind": "robust", "file": fn, "content_hex": content.hex(), "origin": origin, "observed": st, "detail": msg}
+        if fn == "Makefile":
+            g = next(gi)
+            if st == "panic" and g is False and "makefile-bare-annotation-panic" in findings:
+                out.known(findings["makefile-bare-annotation-panic"]["id"], "Makefile %r panics the loader: %s" % (content[:40].decode("latin-1"), msg[:60]))
+                stats["robust_known"] += 1
+                continue
+        if st == "hang" and fn in ("BUILD.star", "BUILD.bzl") and re.search(rb"\bfor\b", content) and "starlark-unbounded-execution" in findings:
+            out.known(findings["starlark-unbounded-execution"]["id"],
+                      "a BUILD.star with a long-running loop never finishes loading (no step limit, no cancellation): %r" % content[:60].decode("latin-1"))
+            stats["robust_known"] += 1
+            continue
+        out.violation("loader %s on %s (%s): %s" % (st, fn, origin, msg[:160]), rep)
